@@ -43,7 +43,10 @@ EXPLANATION = ('PARTIAL. Proved (unbounded, all operands): the 15 integer runtim
                'target, the text/binary front end; these are exercised by tests only. Linear memory and globals '
                '(memory.size/grow with min/max limits, every load/store width and signedness with static offsets at '
                'the last valid address and one past it, data segments, mutable/immutable globals, grow-store-load '
-               'sequences, final memory image) are VALIDATED ONLY by a search-only differential stage '
+               'sequences, final memory image) and the fusion of pending comparisons with their consumers (every integer '
+               'and f32/f64 comparison incl. NaN/+-0/+-inf, alone and followed by eqz, eqz eqz, br_if, if/else, select, '
+               'eqz+br_if/if/select, local reuse, used twice: tools/props/c22_cmp.py) are VALIDATED ONLY by search-only '
+               'differential stages '
                '(tools/props/c22_mem.py) against an independent reference written from the core spec; no theorem.')
 TRUSTED = ['tools/py2coq.py (translator; cross-checked per run against the implementation)',
            'extraction of the IrPy static methods from the text emitted by irpy_runtime_code (dedent of 5 functions)',
@@ -378,12 +381,19 @@ def search(ctx):
 
 def memory_tests(ctx, quick):
     """linear memory + globals on the python target vs an independent reference: VALIDATION ONLY (no proof)"""
-    from props import c22_mem
+    from props import c22_mem, c22_cmp
     try:
         c22_mem.memory_stage(ctx, quick)
     except Exception as ex:   # noqa: BLE001
         ctx.log('memory/globals stage crashed: %r' % (ex,))
         ctx.failed_stages.append(('memory_search', repr(ex)))
+    # comparisons (int signed/unsigned, f32/f64 with NaN, +-0, +-inf) x consumers (eqz, br_if, if, select, local reuse ...):
+    # wasm2ppci fuses a pending comparison with its consumer.  VALIDATION ONLY.
+    try:
+        c22_cmp.cmp_stage(ctx)
+    except Exception as ex:   # noqa: BLE001
+        ctx.log('comparison/consumer stage crashed: %r' % (ex,))
+        ctx.failed_stages.append(('cmp_search', repr(ex)))
 
 
 # ---------------------------------------------------------------- correspondence
@@ -561,7 +571,9 @@ MANIFEST = {
             'their failures (NaN -> ValueError, out-of-range trunc not trapping, lost -0.0/NaN) are known findings. Linear '
             'memory and globals on the python target (memory.size/grow limits, all load/store widths at the bounds, data '
             'segments, global get/set, multi-step sequences, final memory image) are checked by a search-only differential '
-            'stage against an independent reference: validation, NOT proof; out-of-bounds accesses abort with AssertionError '
+            'stage against an independent reference, as are all integer and float comparisons (NaN, +-0, +-inf) alone and '
+            'fused with their consumers (eqz, br_if, if/else, select, local reuse): validation, NOT proof; out-of-bounds '
+            'accesses abort with AssertionError '
             '(accepted as trap); addresses >= 2^31 are not trapped (known finding).',
     'note': 'trusted: Coq kernel; tools/py2coq.py; the IR table exporter and the hand model Model/WasmIr.v of what ir2py emits for '
             'Binop/Cast/CJump/Const/FunctionCall (both cross-checked per run by executing the real python target on ~2600 '
